@@ -6,14 +6,14 @@
    taken out (ctl.proxies, plus the entry of a handler or teardown step in flight);
    [earlier z x] = z was stored under the run id of x before x was (ghost Add order). *)
 From FRP Require Import Model.CtlMgr Proofs.CtlMgrProofs.
-From Coq Require Import List NArith.
+From Coq Require Import List NArith ZArith.
 Import ListNotations.
 Import CM.
 Open Scope N_scope.
 
 (* at most one holder per proxy name, in every reachable state *)
-Theorem C12_name_unique : forall acts s t x y n p q,
-  let st := run acts init in
+Theorem C12_name_unique : forall cfg acts s t x y n p q,
+  let st := run acts (init_with cfg) in
   alookup s (sessions st) = Some x -> alookup t (sessions st) = Some y ->
   alookup n (reg_view x) = Some p -> alookup n (reg_view y) = Some q ->
   s = t /\ p = q.
@@ -21,8 +21,8 @@ Proof. exact name_unique. Qed.
 Print Assumptions C12_name_unique.
 
 (* every entry of the name table is held by exactly the session that owns the proxy *)
-Theorem C12_table_entry_has_one_holder : forall acts n p,
-  let st := run acts init in
+Theorem C12_table_entry_has_one_holder : forall cfg acts n p,
+  let st := run acts (init_with cfg) in
   alookup n (pxys st) = Some p ->
   exists pr x, alookup p (proxies st) = Some pr /\ p_name pr = n /\
     alookup (p_owner pr) (sessions st) = Some x /\ alookup n (reg_view x) = Some p.
@@ -31,13 +31,13 @@ Print Assumptions C12_table_entry_has_one_holder.
 
 (* a registration that finds the name present is answered "already exists" and changes nothing
    but the registering session's own program counter: name table, proxies, other sessions intact *)
-Theorem C12_second_registration_refused_incumbent_intact : forall st t y n att ro p pick,
-  alookup t (sessions st) = Some y -> s_spc y = SExist n att ro -> alookup n (pxys st) = Some p ->
+Theorem C12_second_registration_refused_step : forall st t y n att np ro p pick,
+  alookup t (sessions st) = Some y -> s_spc y = SExist n att np ro -> alookup n (pxys st) = Some p ->
   exists st', step st (AStep (TSess t) pick) = Some (st', [ONewProxyResp t n att 2 (negb (s_closed y))]) /\
     pxys st' = pxys st /\ proxies st' = proxies st /\
     forall u, u <> t -> alookup u (sessions st') = alookup u (sessions st).
 Proof. exact second_registration_refused. Qed.
-Print Assumptions C12_second_registration_refused_incumbent_intact.
+Print Assumptions C12_second_registration_refused_step.
 
 (* two sessions racing for one name: the one whose pxyManager.Add finds the name present answers
    "already in use", closes only its own new proxy and leaves table and incumbent untouched *)
@@ -54,18 +54,18 @@ Proof. exact add_race_loser_rolls_back. Qed.
 Print Assumptions C12_add_race_loser_rolls_back.
 
 (* CloseProxy looks only in the sender's own table: a name it does not own is a no-op *)
-Theorem C12_close_only_own : forall st s x n,
+Theorem C12_close_of_unowned_name_is_noop : forall st s x n,
   alookup s (sessions st) = Some x -> s_spc x = SIdle -> s_closed x = false ->
   alookup n (s_proxies x) = None ->
   step st (AReq s (RClose n)) = Some (st, []).
 Proof. exact close_of_foreign_name_is_noop. Qed.
-Print Assumptions C12_close_only_own.
+Print Assumptions C12_close_of_unowned_name_is_noop.
 
 (* when the LoginResp of session n has been emitted, every session stored earlier under its run id
    is done, has an empty view and owns no entry of the name table — chains of simultaneous
    re-logins included (the induction on the replacement chain is invariant B_wait/B_post) *)
-Theorem C12_ack_after_full_teardown : forall acts n x t z,
-  let st := run acts init in
+Theorem C12_ack_after_full_teardown : forall cfg acts n x t z,
+  let st := run acts (init_with cfg) in
   alookup n (sessions st) = Some x -> started x ->
   alookup t (sessions st) = Some z -> earlier z x ->
   s_done z = true /\ footprint_empty st t z.
@@ -73,8 +73,8 @@ Proof. exact ack_after_full_teardown. Qed.
 Print Assumptions C12_ack_after_full_teardown.
 
 (* after the ack no name is held by an old session of the same run id *)
-Theorem C12_own_old_registrations_never_block : forall acts n x name p pr t z,
-  let st := run acts init in
+Theorem C12_own_old_registrations_never_block : forall cfg acts n x name p pr t z,
+  let st := run acts (init_with cfg) in
   alookup n (sessions st) = Some x -> started x ->
   alookup name (pxys st) = Some p -> alookup p (proxies st) = Some pr ->
   alookup t (sessions st) = Some z -> earlier z x -> p_owner pr <> t.
@@ -83,8 +83,8 @@ Print Assumptions C12_own_old_registrations_never_block.
 
 (* a stored session that is not done stays reachable through its run id: the entry is only ever
    replaced by a newer session, never removed by the late Del of an older one *)
-Theorem C12_late_del_never_removes_new : forall acts s x,
-  let st := run acts init in
+Theorem C12_late_del_never_removes_new : forall cfg acts s x,
+  let st := run acts (init_with cfg) in
   alookup s (sessions st) = Some x -> added x -> s_done x = false ->
   exists m y, getbyid st (s_rid x) = Some m /\ alookup m (sessions st) = Some y /\
               s_rid y = s_rid x /\ s_seq x <= s_seq y.
@@ -92,8 +92,8 @@ Proof. exact late_del_never_removes_new. Qed.
 Print Assumptions C12_late_del_never_removes_new.
 
 (* GetByID resolves to the newest session stored under the run id *)
-Theorem C12_runid_designates_newest : forall acts r m,
-  let st := run acts init in
+Theorem C12_runid_designates_newest : forall cfg acts r m,
+  let st := run acts (init_with cfg) in
   getbyid st r = Some m ->
   exists y, alookup m (sessions st) = Some y /\ added y /\ s_rid y = r /\
     forall t z, alookup t (sessions st) = Some z -> added z -> s_rid z = r -> s_seq z <= s_seq y.
@@ -101,8 +101,8 @@ Proof. exact runid_designates_newest. Qed.
 Print Assumptions C12_runid_designates_newest.
 
 (* never two acknowledged, unfinished sessions under one run id *)
-Theorem C12_one_active_session_per_runid : forall acts s x t y,
-  let st := run acts init in
+Theorem C12_one_active_session_per_runid : forall cfg acts s x t y,
+  let st := run acts (init_with cfg) in
   alookup s (sessions st) = Some x -> alookup t (sessions st) = Some y ->
   started x -> started y -> s_rid x = s_rid y -> s_done x = false -> s_done y = false -> s = t.
 Proof. exact one_active_session_per_runid. Qed.
@@ -120,18 +120,71 @@ Theorem C12_fresh_runid_replaces_nobody : forall st n x pick,
 Proof. exact fresh_runid_replaces_nobody. Qed.
 Print Assumptions C12_fresh_runid_replaces_nobody.
 
+(* ---- reachable-state, all-schedules forms (round 2) ---- *)
+
+(* a running proxy is in its owner's view or in flight in its owner's handler (never orphaned) *)
+Theorem C12_running_proxy_is_held : forall cfg acts p pr,
+  let st := run acts (init_with cfg) in
+  alookup p (proxies st) = Some pr -> p_status pr = PRunning ->
+  exists x, alookup (p_owner pr) (sessions st) = Some x /\ hold x (p_name pr) p.
+Proof. exact running_proxy_is_held. Qed.
+Print Assumptions C12_running_proxy_is_held.
+
+(* non-interference, full strength: whatever the other sessions, the login goroutines and the late
+   Del goroutines do, in any number and any interleaving, an entry of my view stays in my view,
+   stays in the name table and its proxy object is untouched (status included) *)
+Theorem C12_foreign_actions_keep_my_entries : forall cfg acts2 acts s x n p,
+  let st := run acts (init_with cfg) in
+  Forall (fun a => actor a <> Some s) acts2 ->
+  alookup s (sessions st) = Some x -> alookup n (reg_view x) = Some p ->
+  let st2 := run acts2 st in
+  exists x2, alookup s (sessions st2) = Some x2 /\ alookup n (reg_view x2) = Some p /\
+    alookup n (pxys st2) = Some p /\ alookup p (proxies st2) = alookup p (proxies st).
+Proof. exact foreign_actions_keep_my_entries. Qed.
+Print Assumptions C12_foreign_actions_keep_my_entries.
+
+(* a close request affects only proxies of the session that sent it (any name, any reachable state) *)
+Theorem C12_close_only_own : forall cfg acts t cn s x n p,
+  let st := run acts (init_with cfg) in
+  t <> s -> alookup s (sessions st) = Some x -> alookup n (reg_view x) = Some p ->
+  let st' := run [AReq t (RClose cn); AStep (TSess t) 0] st in
+  exists x', alookup s (sessions st') = Some x' /\ alookup n (reg_view x') = Some p /\
+    alookup n (pxys st') = Some p /\ alookup p (proxies st') = alookup p (proxies st).
+Proof. exact close_request_keeps_foreign_entries. Qed.
+Print Assumptions C12_close_only_own.
+
+(* a second registration of a held name is refused in every reachable state, at the Exist check ... *)
+Theorem C12_second_registration_refused_incumbent_intact : forall cfg acts s x n p t y att np ro pick,
+  let st := run acts (init_with cfg) in
+  alookup s (sessions st) = Some x -> alookup n (reg_view x) = Some p ->
+  alookup t (sessions st) = Some y -> s_spc y = SExist n att np ro ->
+  exists st', step st (AStep (TSess t) pick) = Some (st', [ONewProxyResp t n att 2 (negb (s_closed y))]) /\
+    pxys st' = pxys st /\ proxies st' = proxies st.
+Proof. exact held_name_registration_refused. Qed.
+Print Assumptions C12_second_registration_refused_incumbent_intact.
+
+(* ... or, if it passed Exist before the incumbent registered, at pxyManager.Add *)
+Theorem C12_held_name_add_refused : forall cfg acts s x n p t y q pick,
+  let st := run acts (init_with cfg) in
+  alookup s (sessions st) = Some x -> alookup n (reg_view x) = Some p ->
+  alookup t (sessions st) = Some y -> s_spc y = SAddP n q ->
+  exists st1, step st (AStep (TSess t) pick) = Some (st1, []) /\ pxys st1 = pxys st /\ proxies st1 = proxies st /\
+    exists y1, alookup t (sessions st1) = Some y1 /\ s_spc y1 = SRollback n q.
+Proof. exact held_name_add_refused. Qed.
+Print Assumptions C12_held_name_add_refused.
+
 (* ---- the hypotheses are satisfiable: a chain of two simultaneous re-logins ---- *)
 (* session 0 logs in fresh (run id 7), registers name 1; sessions 1 and 2 re-login with run id 7
    at once (both Adds before any teardown), the chain unwinds, session 2 re-registers name 1 *)
 Definition ex_chain : list action :=
   [ALogin None 7; AStep (TLogin 0) 0; AStep (TLogin 0) 0;
-   AReq 0 (RNew 1 0 true true); AStep (TSess 0) 0; AStep (TSess 0) 0; AStep (TSess 0) 0; AStep (TSess 0) 0;
+   AReq 0 (RNew 1 0 1%Z true true); AStep (TSess 0) 0; AStep (TSess 0) 0; AStep (TSess 0) 0; AStep (TSess 0) 0;
    ALogin (Some 7) 0; ALogin (Some 7) 0; AStep (TLogin 1) 0; AStep (TLogin 2) 0;
    AStep (TSess 0) 0; AStep (TSess 0) 0; AStep (TSess 0) 1; AStep (TSess 0) 0; AStep (TSess 0) 0;
    AStep (TLogin 1) 0; AStep (TLogin 1) 0; AStep (TSess 1) 0; AStep (TSess 1) 0; AStep (TSess 1) 0;
    AStep (TLate 0) 0; AStep (TLate 0) 0;
    AStep (TLogin 2) 0; AStep (TLogin 2) 0;
-   AReq 2 (RNew 1 1 true true); AStep (TSess 2) 0; AStep (TSess 2) 0; AStep (TSess 2) 0; AStep (TSess 2) 0].
+   AReq 2 (RNew 1 1 1%Z true true); AStep (TSess 2) 0; AStep (TSess 2) 0; AStep (TSess 2) 0; AStep (TSess 2) 0].
 
 Example ex_chain_state :
   let st := run ex_chain init in
